@@ -565,7 +565,7 @@ def generate(rng, tier):
             a["op"] = "render"
             a["how"] = rng.choice(["str", "str", "plain", "lines"])
             a["late"] = rng.random() < 0.4
-            if rng.random() < 0.2:
+            if rng.random() < (0.5 if cur[o]["kind"] == "recfmt" else 0.2):
                 a["poke"] = rng.choice(POKES)
             if a["conf"] == "global" and not a["no_color"] and not a["palette"] and rng.random() < 0.3:
                 a["how"] = "dunder"
@@ -1058,6 +1058,12 @@ def _do_op(w, trace, op, n, k, log, color):
                 w.stats["pokes"] = w.stats.get("pokes", 0) + 1
             text = w.guarded("whole-text", t.ctx(), rw.ro.whole_text, t.r, how)
             w.check_text(t, text, how)
+            if op.get("poke") and kind == "recfmt" and t.r.res is not None and hasattr(t.r.res, "columns"):
+                # the column texts of a formatted record belong to the caller: editing them in place is its business
+                # and must not show anywhere else, now or later
+                w.guarded("poke-columns", t.ctx(), rw.ro.poke_columns, t.r)
+                w.stats["pokes"] = w.stats.get("pokes", 0) + 1
+                w.stats["record_columns_edited"] = w.stats.get("record_columns_edited", 0) + 1
         log.add("render", n, hashlib.blake2b(text.encode(), digest_size=6).hexdigest())
     elif k == "task_start":
         ent0 = w.objs.get(op["obj"])
